@@ -122,7 +122,8 @@ pub fn gen(focus: &str, seed: u64, count: u64) -> Vec<String> {
                 if g.chance(0.4) { 1 + g.below(3) } else { 0 },
                 g.below(100_000),
                 // C06 quantifies over all states: some start outside their declared ranges
-                if (focus == "C06" || focus == "C05") && g.chance(0.2) { " outside=1" } else { "" }
+                if (focus == "C06" || focus == "C05") && g.chance(0.2) { " outside=1" }
+                else if focus == "C20" && g.chance(0.15) { " reversed=1" } else { "" }
             )
         };
         let mut st = settings(&mut g, focus);
